@@ -14,6 +14,7 @@ import (
 
 	"verifharness/internal/corpus"
 	"verifharness/internal/fw"
+	"verifharness/internal/gen"
 	"verifharness/internal/run"
 	"verifharness/internal/xrand"
 )
@@ -34,6 +35,7 @@ func init() {
 			{Name: "corpus", N: func(string) int { return len(corpus.All()) }, Gen: c03GenCorpus, Eval: c03Eval},
 			{Name: "multifault", N: constN(2500, 60000), Gen: c03GenMultiFault, Eval: c03Eval},
 			{Name: "concurrent", N: constN(150, 3000), Gen: c03GenMultiFault, Eval: c03EvalConcurrent},
+			{Name: "concurrent-accepted", N: constN(400, 8000), Gen: genModelCase, Eval: c03EvalConcurrentModel},
 		},
 		Floors: map[string]int64{"repetitions": 20000, "multi_entry_documents": 1000},
 		Post:   c03Post,
@@ -102,19 +104,42 @@ func c03Eval(t *fw.T, c *fw.Case) {
 	}
 }
 
+// c03EvalConcurrentModel: an accepted generated document (bodies that are references to user types, inherited
+// properties, regex types, enums - everything whose example or content is built from shared pieces) is serialised while
+// 15 goroutines process other generated documents of the same kind.
+func c03EvalConcurrentModel(t *fw.T, c *fw.Case) {
+	m, r := modelOf(c, gen.Options{MaxBlocks: 10, AllowAllOf: true, Rich: true})
+	d := run.Single([]byte(gen.Render(m, nil).Text))
+	c.Docs = []run.Doc{d}
+	var noise []run.Doc
+	for g := 0; g < 15; g++ {
+		nm := gen.Generate(r.Fork(), gen.Options{MaxBlocks: 8, AllowAllOf: true, Rich: true})
+		noise = append(noise, run.Single([]byte(gen.Render(nm, nil).Text)))
+	}
+	c03Concurrent(t, c, d, noise)
+}
+
 func c03EvalConcurrent(t *fw.T, c *fw.Case) {
-	d := c.Docs[0]
-	solo := run.ExecConcurrent(d)
-	fp := fingerprint(solo)
-	// noise: other projects processed at the same time
 	ee := corpus.Small(4000)
 	r := xrand.Derive(t.Seed, c.Index, "C03", "noise")
+	var noise []run.Doc
+	for g := 0; g < 15; g++ {
+		e := ee[r.Intn(len(ee))]
+		noise = append(noise, memDoc(e.Content, e.Dir))
+	}
+	c03Concurrent(t, c, c.Docs[0], noise)
+}
+
+func c03Concurrent(t *fw.T, c *fw.Case, d run.Doc, noise []run.Doc) {
+	solo := run.ExecConcurrent(d)
+	fp := fingerprint(solo)
+	t.Count("concurrent_subject_" + solo.Outcome)
+	// noise: other projects processed at the same time
 	stop := make(chan struct{})
 	var wg sync.WaitGroup
-	for g := 0; g < 15; g++ {
+	for _, nd := range noise {
 		wg.Add(1)
-		e := ee[r.Intn(len(ee))]
-		go func(e corpus.Entry) {
+		go func(nd run.Doc) {
 			defer wg.Done()
 			for {
 				select {
@@ -122,9 +147,9 @@ func c03EvalConcurrent(t *fw.T, c *fw.Case) {
 					return
 				default:
 				}
-				run.ExecConcurrent(memDoc(e.Content, e.Dir))
+				run.ExecConcurrent(nd)
 			}
-		}(e)
+		}(nd)
 	}
 	var bad *run.Obs
 	for i := 0; i < 6; i++ {
@@ -273,6 +298,30 @@ var c03Kinds = []faultKind{
 		for i := 0; i < k; i++ {
 			*u++
 			fmt.Fprintf(sb, "POST /eb%d\n  Request\n", *u)
+		}
+	}},
+	{"checker-faults-on-a-type-cycle", func(sb *strings.Builder, k int, u *int) {
+		// k+1 types on one cycle, the first k of them with a fault only the checker finds (value against min / max / a rule
+		// that does not fit the type); found by an independent reviewer: fixed in 27b9f85
+		*u++
+		n := k + 1
+		for i := 0; i < n; i++ {
+			fault := ""
+			if i < k {
+				fault = []string{fmt.Sprintf(",\n  \"bad\": %d // {min: %d}", i, 100+i), fmt.Sprintf(",\n  \"bad\": %d // {max: %d}", 50+i, i), fmt.Sprintf(",\n  \"bad\": \"s\" // {minLength: %d}", 5+i)}[(i+*u)%3]
+			}
+			fmt.Fprintf(sb, "TYPE @cy%d_%d\n{\n  \"next\": @cy%d_%d // {optional: true}%s\n}\n", *u, i, *u, (i+1)%n, fault)
+		}
+	}},
+	{"allof-faults-on-a-type-cycle", func(sb *strings.Builder, k int, u *int) {
+		*u++
+		n := k + 1
+		for i := 0; i < n; i++ {
+			rule := ""
+			if i < k {
+				rule = fmt.Sprintf(" // {allOf: \"@nobase%d_%d\"}", *u, i)
+			}
+			fmt.Fprintf(sb, "TYPE @ca%d_%d\n{%s\n  \"next%d\": @ca%d_%d // {optional: true}\n}\n", *u, i, rule, i, *u, (i+1)%n)
 		}
 	}},
 	{"override-inherited", func(sb *strings.Builder, k int, u *int) {
